@@ -38,7 +38,7 @@ def tasks(tier):
 
 
 def replay(result, workdir, seed):
-    return False, 'native replay for the spline family not built yet'
+    return spline_replay('C01', result, workdir, seed)
 
 
 def replay_file(path):
